@@ -49,6 +49,26 @@ def tt : Handler := fun args impl =>
     | _, _, _ => bad "decode"
   | _ => bad "arity"
 
+/-- `ttd <cfg> <src> <schema> <levels> <hex text> => outcome` — a complete tower whose deepest counted point has `levels` open
+    containers (the generator knows it from the shapes it stacked): C14 says it is accepted iff `levels ≤ 127` (limit enabled).
+    Model = the typed model; specification = that sentence, evaluated on the crate's outcome. -/
+def ttd : Handler := fun args impl =>
+  match args with
+  | [c, sr, se, ls, h] =>
+    match srcOfTag sr, Schema.decode se, ls.toNat?, bytesOfHex h with
+    | some src, some s, some levels, some bs =>
+      let recMsg := hexOfBytes (Gen.message .RecursionLimitExceeded)
+      let isRec := (impl.splitOn ":").getD 1 "" == recMsg
+      let sp :=
+        if impl == "PANIC" then ["C14 panic in the typed text deserializer"]
+        else if levels ≥ 128 && impl.startsWith "OK:" then [s!"C14 a typed target accepted a text that nests {levels} counted containers (the limit is 127)"]
+        else if levels ≥ 128 && !isRec then [s!"C14 {levels} nested containers were rejected, but not with RecursionLimitExceeded: {impl}"]
+        else if levels ≤ 127 && isRec then [s!"C14 a text nesting only {levels} counted containers was rejected with RecursionLimitExceeded"]
+        else []
+      { model := showTop bs (dataMsgOf impl) (deTypedTop (envOf c src) s bs), specs := sp }
+    | _, _, _, _ => bad "decode"
+  | _ => bad "arity"
+
 /-- byte index of `(line, col)` in `bs` (`none` for the unpositioned `0:0`) -/
 def idxOfLineCol (bs : Bytes) (line col : Nat) : Option Nat :=
   if line == 0 then none else
@@ -170,6 +190,6 @@ def rfaults : Handler := fun args impl =>
     | _, _, _ => bad "decode"
   | _ => bad "arity"
 
-def handlers : List (String × Handler) := [("tt", tt), ("tt3", tt3), ("pfxs", pfxs), ("rfaults", rfaults)]
+def handlers : List (String × Handler) := [("tt", tt), ("ttd", ttd), ("tt3", tt3), ("pfxs", pfxs), ("rfaults", rfaults)]
 
 end SJ.Drv.Typed
